@@ -59,16 +59,7 @@ func c01OwnSpecs(quick bool) []*bfs.Spec {
 	}
 	// requests with 1000 inputs: the re-presented secret sits behind 999 fresh ones (a spent one in a melt, one locked by
 	// an in-flight melt in a swap, both in a state check); one scripted history, judged by the same transition oracles
-	seq := func(lo, hi int) string {
-		var p []string
-		for i := lo; i <= hi; i++ {
-			p = append(p, strconv.Itoa(i))
-		}
-		return strings.Join(p, ",")
-	}
-	specs = append(specs, &bfs.Spec{Prop: "C01", Name: "C01-large-requests", Cfg: mintops.Config{Fee: 0},
-		Init: []string{"fund|" + strings.TrimSuffix(strings.Repeat("1,", 1003), ","), "swap|1002|exact", "meltq|1", "melt|0|1000,1001|P", "meltq|900",
-			"melt|1|" + seq(0, 998) + ",1002|S", "swap|" + seq(0, 998) + ",1000|exact", "check|" + seq(0, 998) + ",1002,1000,1001|P", "melt|1|" + seq(0, 999) + "|S", "check|" + seq(0, 1002) + "|P"}, Depth: 0})
+	specs = append(specs, &bfs.Spec{Prop: "C01", Name: "C01-large-requests", Cfg: mintops.Config{Fee: 0}, Init: largeRequestHistory(), Depth: 0})
 	if !quick {
 		specs = append(specs, &bfs.Spec{Prop: "C01", Name: "C01-seq-fee100", Cfg: mintops.Config{Fee: 100}, Init: []string{"fund|8,8"}, Menu: c01Menu, Probe: probeRespend(2), Depth: d})
 	}
@@ -109,4 +100,19 @@ func init() {
 // c01Specs: the property's own searches plus the shallow search over the union of all mint-level menus (seqcommon.go).
 func c01Specs(quick bool) []*bfs.Spec {
 	return append(c01OwnSpecs(quick), unionSpecs("C01", probeRespend(2), quick)...)
+}
+
+// largeRequestHistory: requests with 1000 inputs / state checks with 1003 Ys in which the used secret sits behind 999
+// fresh ones (second batch of a store that looks Ys up in batches) and, at the end, in front of them (first batch).
+func largeRequestHistory() []string {
+	seq := func(lo, hi int) string {
+		var p []string
+		for i := lo; i <= hi; i++ {
+			p = append(p, strconv.Itoa(i))
+		}
+		return strings.Join(p, ",")
+	}
+	return []string{"fund|" + strings.TrimSuffix(strings.Repeat("1,", 1003), ","), "swap|1002|exact", "meltq|1", "melt|0|1000,1001|P", "meltq|900",
+		"melt|1|" + seq(0, 998) + ",1002|S", "swap|" + seq(0, 998) + ",1000|exact", "check|" + seq(0, 998) + ",1002,1000,1001|P",
+		"check|1002,1000," + seq(0, 998) + ",1001|P", "melt|1|" + seq(0, 999) + "|S", "check|" + seq(0, 1002) + "|P"}
 }
